@@ -261,7 +261,7 @@ func runC15(e *core.Env) error {
 				break
 			}
 			val := mark + hostile[hi]
-			for _, entry := range []string{"file", "dashboard"} {
+			for _, entry := range []string{"file", "dashboard", "file-disabled"} {
 				var t2 any
 				json.Unmarshal(raw, &t2)
 				if !setPath(t2, "", path, val) {
@@ -275,10 +275,14 @@ func runC15(e *core.Env) error {
 				// sources are not part of the generic tree walk (custom JSON): keep them
 				for i := range igs {
 					igs[i].Sources = base[i].Sources
+					if entry == "file-disabled" {
+						// only task creation honours `enabled`: DDL and Migrate run over every integration
+						igs[i].Enabled = false
+					}
 				}
 				root := config.Root{Integrations: igs, Sources: []config.Source{{Name: "src1", ChainID: 7, URLs: []string{"http://127.0.0.1:1"}}}}
 				var verr error
-				if entry == "file" {
+				if entry == "file" || entry == "file-disabled" {
 					verr = config.ValidateFix(&root)
 				} else {
 					verr = config.CheckUserInput(root) // what SaveIntegration runs; ValidateFix is NOT run on this path
